@@ -1,13 +1,13 @@
 package checks
 
 import (
-	"time"
 	"bytes"
 	"errors"
 	"fmt"
 	"math/big"
 	"sort"
 	"strings"
+	"time"
 
 	"github.com/bartossh/Computantis/src/accountant"
 	"github.com/bartossh/Computantis/src/spice"
@@ -51,19 +51,19 @@ type lm struct {
 	viol   []lmViolation
 	labels map[string]int
 	// reference knowledge about offered items
-	overdraw  map[ref.Hash]bool // vertex the reference classified as overdrawing when created
-	ruleBreak map[ref.Hash]string
-	dupOffer  int
-	truncated []bool
-	lastSpend map[int]ref.Hash // serialized mode: wallet -> last spend vertex
-	tainted   bool             // a known finding broke conservation for good in this world
-	stuck     error
+	overdraw        map[ref.Hash]bool // vertex the reference classified as overdrawing when created
+	ruleBreak       map[ref.Hash]string
+	dupOffer        int
+	truncated       []bool
+	lastSpend       map[int]ref.Hash // serialized mode: wallet -> last spend vertex
+	tainted         bool             // a known finding broke conservation for good in this world
+	stuck           error
 	genesisIssuerIn bool // some transfer targets the genesis issuer address
 	pendingCreated  []lmCreated
 	twinsDiverged   bool
 	staleTips       map[ref.Hash]bool
 	postCut         map[ref.Hash]bool // vertices the truncated node sealed after the cut
-	evalC02         bool // evaluate the conservation oracle after every observation (truncation scenarios)
+	evalC02         bool              // evaluate the conservation oracle after every observation (truncation scenarios)
 }
 
 type lmCreated struct {
